@@ -1514,6 +1514,13 @@ impl<'a> ProdWorld<'a> {
     /// every live handle owns an open descriptor, and no two live handles own the same number
     fn check_owners(&mut self, after: &str, ex: &mut Exec) {
         let v = self.owned_fds();
+        if self.fd0.is_some() {
+            if v.iter().any(|(who, fd)| *fd == 0 && who.starts_with("taken")) {
+                ex.tag("fd0-delivered-to-caller");
+            } else if self.fd0.as_ref().is_some_and(|g| !g.placeholder) && fd_is_open(0) {
+                ex.tag("fd0-owned-by-op");
+            }
+        }
         for (who, fd) in &v {
             if !fd_is_open(*fd) {
                 self.poisoned = true;
@@ -2114,8 +2121,9 @@ impl<'a> SpliceWorld<'a> {
         settle(self.rt, Duration::from_millis(if self.in_flight { 300 } else { 5 }), || !fd_is_open(ri) && !fd_is_open(ro));
         for (name, raw) in [("in", ri), ("out", ro)] {
             if fd_is_open(raw) {
+                // not closed by hand: whoever still owns it (an operation the driver never released) would
+                // close the number a second time later
                 ex.fail("C06:fd-leak", format!("splice end `{name}` (descriptor {raw}) still open after every handle, future and close() was dropped"));
-                unsafe { libc::close(raw) };
             }
         }
     }
@@ -2140,7 +2148,7 @@ fn exec_splice(case: &Case, drv: &str, fed: bool, ex: &mut Exec) {
         w.finish(ex);
         drive(rt);
         let after = open_fds();
-        if before != after {
+        if before != after && ex.failures.is_empty() {
             ex.fail("C06:fd-balance", format!("splice: open descriptors before {before:?} after {after:?}"));
         }
         ex.tag(format!("splice-{drv}"));
